@@ -274,6 +274,25 @@ func checkC12(c C12Case, r *Rec) *Violation {
 	if evals < 1 {
 		evals = 1
 	}
+	// every path: for half of the programs with one to three bound boolean variables the evaluations
+	// of the same compiled program are ALL assignments of those variables (2..8 evaluations, all events
+	// retained until the end) instead of 1..3 drawn bindings
+	bools := boundBools(u)
+	allAssignments := len(bools) >= 1 && len(bools) <= 3 && hash64(src)%2 == 0
+	if allAssignments {
+		evals = 1 << len(bools)
+		r.Class(fmt.Sprintf("all-assignments-of-%d-boolean-variables", len(bools)))
+	}
+	bindingOf := func(k int) map[string]interface{} {
+		if !allAssignments {
+			return rebind(u, k)
+		}
+		vars := rebind(u, 0)
+		for i, idx := range bools {
+			vars[u.Vars[idx].Name] = k&(1<<i) != 0
+		}
+		return vars
+	}
 	for _, mask := range c.Masks {
 		// the same case without events
 		logP := &Log{}
@@ -410,7 +429,7 @@ func checkC12(c C12Case, r *Rec) *Violation {
 		}
 		runs := make([]*evalRun, evals)
 		for k := 0; k < evals; k++ {
-			run := &evalRun{vars: rebind(u, k), calls: logP.Calls()}
+			run := &evalRun{vars: bindingOf(k), calls: logP.Calls()}
 			logP.Reset()
 			fP := &Fetcher{Vars: run.vars, Fail: u.Fail(), Avail: avail, Log: logP, Keys: ccP.VariableKeyMap}
 			run.oP = call(eP, fP)
